@@ -29,3 +29,20 @@ add("C20", "exploration",
     "runtime monitor: twin (mutate one side, watch the other's snapshot) + address-range overlap monitor over full slice capacity",
     "Held on 30k/3M generated packets and headers under 12 mutation kinds in both directions.",
     "Extension values are reached through GetExtension only; snapshots are fields + Marshal bytes.")
+
+add("C16", "exploration",
+    "runtime monitor: concatenation / fragment-size oracle over the exhaustive (length 0-320) x (MTU 1-320) grid plus MTU-multiple boundaries; overlap + scribble monitor for Opus",
+    "Held on the complete 321x320 grid for both payloaders, on k*MTU-1..k*MTU+1 for nine MTUs up to 10 000 bytes, and on Opus lengths 0-320 + nil.",
+    "Input bytes are random; the split is value-independent in the code observed.")
+add("C17", "exploration",
+    "runtime monitor: exhaustive execution of the value domains (2x256, 2^16, 2^24, 2^24) against bit layouts from the specifications; pre-loaded receiver twin; every input length 0..size+2",
+    "Every value of AudioLevel, TransportCC, PlayoutDelay and AbsSendTime was executed; AbsCaptureTime 2^20 (quick) / 2^24 (thorough) seeded 64-bit values x 3 receiver histories.",
+    "Layouts restated in the monitor from RFC 6464 / the WebRTC extension documents.")
+add("C18", "exploration",
+    "runtime monitor: integer-nanosecond reference bounds over boundary-concentrated (instant, offset, delay) triples",
+    "Held on ~2M (quick) / 200M (thorough) triples concentrated at 64 s wraps, whole seconds, era end, offset extremes and delays just below 64 s.",
+    "Send and receive instants both before the NTP era end; 1 ns conversion slack.")
+add("C19", "exploration",
+    "runtime monitor: differential against an independent video-layers-allocation00 encoder/decoder over all slot subsets; fresh-vs-used receiver twin; recover()-guarded decoder fuzz",
+    "Thorough executes all 69 900 slot subsets x resolution flag; quick all subsets for <=2 streams plus 20 000 sampled.",
+    "Reference encoder/decoder cross-checked on every case; empty allocation only panic-checked.")
